@@ -53,3 +53,17 @@ package pcache
 //@   loop 1: invariant cxps != nil && isfresh(cxps) && provider != nil && provider.ExtendedProviders != nil && extProviders == provider.ExtendedProviders && rangeindex < len(provider.ExtendedProviders.Contextual)
 //@   loop 1: invariant forall(j, 0, rangeindex + 1, has(cxps, provider.ExtendedProviders.Contextual[j].ContextID))
 //@   loop 1: invariant forall(j, 0, rangeindex + 1, implies(lastOcc(provider, j, rangeindex + 1), cxps[provider.ExtendedProviders.Contextual[j].ContextID].override == provider.ExtendedProviders.Contextual[j].Override && cxps[provider.ExtendedProviders.Contextual[j].ContextID].providers == provider.ExtendedProviders.Contextual[j].Providers && cxps[provider.ExtendedProviders.Contextual[j].ContextID].metadatas == provider.ExtendedProviders.Contextual[j].Metadatas))
+
+// ---------------------------------------------------------------------------
+// C06 / C07: refresh and miss-fetch
+
+//@ nonnil log
+//@ lockchan ProviderCache.writeLock
+//@ protects ProviderCache.writeLock: write, seq
+
+//@ spec func pcOK(pc val) bool = pc != nil && pc.write != nil && pc.writeLock != nil && !closed(pc.writeLock)
+
+//@ func (*ProviderCache).Refresh
+//@   property C06 C07
+//@   requires pcOK(pc) && ctx != nil && !held(pc.writeLock)
+//@   requires forall(j, 0, len(pc.sources), pc.sources[j] != nil)
